@@ -14,20 +14,14 @@ from props import common
 SPEC = os.path.join(vlib.VERIF, "specs", "Wire")
 
 # TLC runs side by side, one per group of entry points (computing the initial states is single-threaded)
-GROUPS = {
-    "quick": [
-        ("stream", ["s5srv", "s5cli", "nonesrv", "httpsrv", "httpcli", "directudp", "s5udp", "noneudp"]),
-        ("ss-tcp+dns", ["ss22srv", "ss22cli", "ss22chunk", "dns"]),
-        ("ss-udp", ["ss22udpsrv", "ss22udpcli"]),
-    ],
-    "thorough": [
-        ("stream", ["s5srv", "s5cli", "nonesrv", "httpsrv", "httpcli", "directudp"]),
-        ("codec", ["s5udp", "noneudp", "dns"]),
-        ("ss-tcp", ["ss22srv", "ss22cli", "ss22chunk"]),
-        ("ss-udp-srv", ["ss22udpsrv"]),
-        ("ss-udp-cli", ["ss22udpcli"]),
-    ],
-}
+_GROUPS = [
+    ("stream", ["s5srv", "s5cli", "nonesrv", "httpsrv", "httpcli", "directudp"]),
+    ("codec", ["s5udp", "noneudp", "dns"]),
+    ("ss-tcp", ["ss22srv", "ss22cli", "ss22chunk"]),
+    ("ss-udp-srv", ["ss22udpsrv"]),
+    ("ss-udp-cli", ["ss22udpcli"]),
+]
+GROUPS = {"quick": _GROUPS, "thorough": _GROUPS}
 
 INVARIANTS = "TypeOK ProgEnds InBounds BufOK StreamOK TruncRejects DnsComplete RouterTotal ClientEncodable"
 
@@ -251,16 +245,21 @@ def run(tier, seed, replay):
     tlc_cov, cases = {}, {}
     design_violation = []
     groups = GROUPS[tier]
-    with ThreadPoolExecutor(max_workers=len(groups)) as ex:
-        futs = [ex.submit(run_tlc, name, eps, consts, 3300 if big else 1200, 3 if big else 5) for name, eps in groups]
+    # thorough: the design mutants run next to the groups; each must violate its invariant (non-vacuity)
+    mutants = [("no-port0-guard", ["nonesrv"], "RouterTotal"), ("no-domain-length-check", ["noneudp"], "InBounds"),
+               ("no-padding-check", ["ss22udpsrv"], "InBounds")] if big else []
+    with ThreadPoolExecutor(max_workers=len(groups) + len(mutants)) as ex:
+        futs = [ex.submit(run_tlc, name, eps, consts, 3300 if big else 1200, 3) for name, eps in groups]
+        mfuts = [ex.submit(run_tlc, "mutant/" + variant, eps, dict(consts, Variant=variant, EMIT=""), 3300, 2) for variant, eps, _ in mutants]
         outs = [f.result() for f in futs]
+        mouts = [f.result() for f in mfuts]
     for (name, r), (_, eps) in zip(outs, groups):
         if r.violation:
             # a counterexample of the design counts only if the real code reproduces it: enumerate the cases of this
             # group once more without the invariants and let the driver decide
             design_violation.append((name, r.violation))
             c2 = dict(consts, INVARIANTS="TypeOK")
-            _, r = run_tlc(name + "/no-invariants", eps, c2, 840, 4)
+            _, r = run_tlc(name + "/no-invariants", eps, c2, 3300, 4)
             if r.violation:
                 raise vlib.Broken("TLC fails on group %s even without the design invariants: %s\n%s" % (name, r.violation, r.out[-2000:]))
         cs, _ = parse_cases(r.out)
@@ -274,16 +273,10 @@ def run(tier, seed, replay):
                "s5udpsrv", "s5udpcli", "noneudpsrv", "noneudpcli", "directudp"):
         if not model.get((ep, "request")) or (ep != "directudp" and not model.get((ep, "rejected"))):
             raise vlib.Broken("the lattice of entry point %s has no accepted or no rejected message (vacuous)" % ep)
-
-    # ---- (2) non-vacuity of the design invariants (thorough): each design mutant must violate its invariant
-    if big:
-        for variant, eps, inv in (("no-port0-guard", ["nonesrv"], "RouterTotal"), ("no-domain-length-check", ["noneudp"], "InBounds"),
-                                  ("no-padding-check", ["ss22udpsrv"], "InBounds")):
-            c2 = dict(consts, Variant=variant, EMIT="")
-            _, r = run_tlc("mutant/" + variant, eps, c2, 600, 4)
-            if r.violation != inv:
-                raise vlib.Broken("design mutant %s does not violate %s (got %s): the invariant is vacuous" % (variant, inv, r.violation))
-            tlc_cov["mutant/" + variant] = {"violates": r.violation}
+    for (variant, eps, inv), (_, r) in zip(mutants, mouts):
+        if r.violation != inv:
+            raise vlib.Broken("design mutant %s does not violate %s (got %s): the invariant is vacuous" % (variant, inv, r.violation))
+        tlc_cov["mutant/" + variant] = {"violates": r.violation}
 
     # ---- (3) the binding: every case through the real code, in child-process batches
     conc = 5 if big else 3
@@ -293,14 +286,14 @@ def run(tier, seed, replay):
     stats = collections.Counter()
     p = dict(params, conc=conc)
     with ThreadPoolExecutor(max_workers=16) as ex:
-        futs = [ex.submit(run_batch, binary, b, p, seed, tier, work, i, 780 if big else 300, v, stats) for i, b in enumerate(batches)]
+        futs = [ex.submit(run_batch, binary, b, p, seed, tier, work, i, 1800 if big else 600, v, stats) for i, b in enumerate(batches)]
         results = [f.result() for f in futs]
     # ---- (4) the live layer: the server-side cases once more, over loopback sockets into a real service.Manager
     live_eps = ("s5srv", "nonesrv", "httpsrv", "ss22srv", "s5udpsrv", "noneudpsrv", "ss22udpsrv")
     live_cases = [c for c in ordered if c["ep"] in live_eps]
     lb = [b for b in common.chunks(live_cases, 8 if big else 4) if b]
     with ThreadPoolExecutor(max_workers=8) as ex:
-        futs = [ex.submit(run_batch, binary, b, params, seed, tier, work, i, 780 if big else 300, v, stats, "TestLive") for i, b in enumerate(lb)]
+        futs = [ex.submit(run_batch, binary, b, params, seed, tier, work, i, 1800 if big else 600, v, stats, "TestLive") for i, b in enumerate(lb)]
         results += [f.result() for f in futs]
     counters = collections.Counter()
     evaluations = ran = 0
@@ -317,7 +310,7 @@ def run(tier, seed, replay):
             res["counters"] = res.get("counters") or {}
             res = common.absorb(v, res, out, rc, "cases")
             evaluations += res["steps"]
-            ran += res["behaviours"]
+            ran += res["behaviours"] if "live/probes" not in res["counters"] else 0
             for kk, n in res["counters"].items():
                 counters[kk] += n
     if design_violation:
